@@ -35,6 +35,12 @@ TEXT = {
             "and div/mod never overflow; shifts = (a*2^s) mod 2^w and a/2^s; ~a = 2^w-1-a; neg/truediv unsupported. "
             "Tie to code: basic.py operators run against the model on boundary/random operands for all six widths.",
             "Coq proof (lia + Z bit lemmas) + vm_compute correspondence with basic.py", "5 (C13)"),
+    "C17": ("Theorems (all H, src, trees, paths): a partial tree (subtrees replaced by bare summaries) has the same root; "
+            "every read / non-expanding write / expanding write that succeeds on it succeeds on the complete tree with "
+            "related results and equal roots (expanding writes under Hinj, relying on the repaired setter); every failure "
+            "is a navigation error; summarize_into produces such a tree. View level tied by correspondence + model-free "
+            "comparison with the complete tree.",
+            "Coq proof (simulation relation summ, induction on paths) + correspondence", "5 (C17)"),
     "C18": ("Theorems: get_target_history (model of the fixed code, recursion on the gindex path with per-level "
             "de-duplication) equals 'look the position up in every entry and drop consecutive repeats' on keys and roots, "
             "for all histories and targets (premise Hinj); never empty for a non-empty history; get_diff empty on equal "
